@@ -268,40 +268,84 @@ func checkGate(r *Report, gi *gateInfo) *ssa.Function {
 	fRawNil := Fact{tEq(&Term{Op: "load", Args: []*Term{{Op: "field", S: "RawProtected", Args: []*Term{T("param", "0")}}}}, tNil()), true}
 	nsucc := 0
 	for i, p := range paths {
+		if !p.feasible() {
+			continue
+		}
 		res := p.results()
 		fs := factSet{}
 		for _, c := range p.conds {
 			fs.add(c)
 		}
-		k, _ := P.classifyErr(res[0], fs)
+		k, deleg := P.classifyErr(res[0], fs)
 		id := fmt.Sprintf("%s:path:%s", key, pathID(p))
 		_ = i
-		switch k {
-		case exitFailure:
-			// mismatch / other accessor errors
-			if p.has(fAccOK) && p.has(fNeAlg) {
-				o := r.ob("R04.2", id+":mismatch", fn, p.ret, "mismatch exit wraps ErrAlgorithmMismatch")
-				o.check(strings.Contains(res[0].String(), "*@ErrAlgorithmMismatch"), "error "+res[0].String(), "mismatch exit returns "+res[0].String())
+		// a verdict handed through from a helper: examine the helper's paths in its place
+		type vcase struct {
+			conds  []Fact
+			fail   bool
+			errStr string
+		}
+		var cases []vcase
+		if dc := delegCall(res[0]); deleg && dc != nil && P.calleeOfTerm(dc) != nil {
+			g := P.calleeOfTerm(dc)
+			m := map[string]*Term{}
+			for ai, a := range dc.Args {
+				m[fmt.Sprint(ai)] = a
 			}
-			continue
-		default:
+			for _, gp := range P.allPaths(g) {
+				if !gp.feasible() {
+					continue
+				}
+				gfs := factSet{}
+				cs := append([]Fact{}, p.conds...)
+				for _, gc := range gp.conds {
+					gfs.add(gc)
+					cs = append(cs, normFact(gc.Pred.subst(m), gc.Val))
+				}
+				gk, _ := P.classifyErr(gp.results()[errIndex(g)], gfs)
+				cases = append(cases, vcase{cs, gk == exitFailure, gp.results()[errIndex(g)].subst(m).String()})
+			}
+		} else {
+			cases = []vcase{{p.conds, k == exitFailure, res[0].String()}}
+		}
+		for ci, vc := range cases {
+			has := func(f Fact) bool {
+				for _, c := range vc.conds {
+					if c.String() == f.String() {
+						return true
+					}
+				}
+				return false
+			}
+			cid := id
+			if len(cases) > 1 {
+				cid = fmt.Sprintf("%s/%d", id, ci)
+			}
+			if vc.fail {
+				// mismatch / other accessor errors
+				if has(fAccOK) && has(fNeAlg) {
+					o := r.ob("R04.2", cid+":mismatch", fn, p.ret, "mismatch exit wraps ErrAlgorithmMismatch")
+					o.check(strings.Contains(vc.errStr, "*@ErrAlgorithmMismatch"), "error "+truncate(vc.errStr, 120), "mismatch exit returns "+truncate(vc.errStr, 200))
+				}
+				continue
+			}
 			nsucc++
-			o := r.ob("R04.2", id, fn, p.ret, "success path of the gate is (a) equal, (b) not-found with external data, or (c) sign-side injection")
+			o := r.ob("R04.2", cid, fn, p.ret, "success path of the gate is (a) equal, (b) not-found with external data, or (c) sign-side injection")
 			wr := pathWrites(P, p)
 			switch {
-			case p.has(fAccOK) && p.has(fEqAlg):
+			case has(fAccOK) && has(fEqAlg):
 				o.check(len(wr) == 0, "(a) candidate == alg, no write", "(a) path writes "+fmt.Sprint(wr))
-			case p.has(fNotFound) && p.has(fExt):
+			case has(fNotFound) && has(fExt):
 				o.check(len(wr) == 0, "(b) not found, len(external) > 0, no write", "(b) path writes "+fmt.Sprint(wr))
-			case gi.sign && p.has(fNotFound) && p.has(fRawNil):
+			case gi.sign && has(fNotFound) && has(fRawNil):
 				why := injectionOK(P, p)
 				o.check(why == "", "(c) not found, RawProtected == nil, alg inserted under label 1 into the current protected map", why)
 			default:
 				var cs []string
-				for _, c := range p.conds {
+				for _, c := range vc.conds {
 					cs = append(cs, c.String())
 				}
-				o.fail("gate succeeds on a path that is none of (a), (b), (c): conditions " + strings.Join(cs, " ∧ "))
+				o.fail("gate succeeds on a path that is none of (a), (b), (c): conditions " + truncate(strings.Join(cs, " ∧ "), 500))
 			}
 		}
 	}
@@ -465,9 +509,12 @@ func checkDecodedAlg(r *Report, accessor *ssa.Function) {
 	}
 	o := r.ob("R04.4", shortFn(ph)+":retype-alg", ph, nil, "the protected-bucket decoder reads alg through the gates' accessor")
 	uses := false
-	for _, ci := range callsIn(ph, nil) {
-		if staticCallee(ci) == accessor {
-			uses = true
+	for f := range P.reachable([]*ssa.Function{ph}) {
+		// the decoder itself or a helper on its own static call chain (not via the CBOR dispatch)
+		for _, ci := range callsIn(f, nil) {
+			if staticCallee(ci) == accessor {
+				uses = true
+			}
 		}
 	}
 	o.check(uses, "calls "+shortFn(accessor), "decoder does not call "+shortFn(accessor))
